@@ -5974,7 +5974,9 @@ def check_C18(res):
                     cs[0].send("".join("INVITE %s %s\r\n" % (names[c], lim) for c in cs[1:]))
                     pump_all(cs, quiet=0.3, tmo=6.0)
                     stats["limit_joins_invited"] += N - 1
-                for c in cs:
+                # (in the invited rounds the first member is already in: a second JOIN of a member is answered with 471 or with nothing
+                # depending on whether the channel has filled up by then, so it would be counted as admitted AND refused)
+                for c in (cs[1:] if rd % 2 == 1 else cs):
                     c.send("JOIN %s\r\n" % lim)
                 pump_all(cs, quiet=0.3, tmo=6.0)
                 n0 = len(w.lines)
